@@ -11,7 +11,7 @@ DateDetail(c) == LET p == DatePoint(c) IN [y |-> p[1], m |-> p[2], d |-> p[3], d
 TimeDetail(c) == LET p == TimePoint(c) IN [h |-> p[1], mi |-> p[2], s |-> p[3], us |-> p[4], secs |-> p[1] * 3600 + p[2] * 60 + p[3]]
 
 Detail(x, c) ==
-    IF c \in {"null", "-", "n_42"} THEN [none |-> TRUE]
+    IF c \in {"null", "-", "n_42", "absent"} THEN [none |-> TRUE]
     ELSE IF IsSized(c) THEN [len |-> SizeOf(SizePointOf(c))]
     ELSE IF c = "t_mb_chunk" THEN [len |-> ChunkSize + 100, split |-> ChunkSize - 2]
     ELSE IF Tag(x) = "date" THEN DateDetail(c)
@@ -21,10 +21,11 @@ Detail(x, c) ==
     ELSE [none |-> TRUE]
 
 StepOut(h) == [k |-> h.k, cls |-> h.cls, form |-> h.form, path |-> h.path, detail |-> Detail(ct, h.cls),
+               pre |-> h.pre, predetail |-> Detail(ct, h.pre), may_reject |-> MayReject(ct, h.cls),
                large |-> IsLarge(h.cls), huge |-> IsHuge(h.cls)]
 
 Emit == (phase = "written" /\ phase' = "read") =>
-          PrintT(<<"T", ToJson([ct |-> ct, tag |-> Tag(ct), shape |-> shape,
+          PrintT(<<"T", ToJson([ct |-> ct, tag |-> Tag(ct), shape |-> shape, witness_first |-> WitnessFirst(shape),
                                 hist |-> [i \in 1..Len(hist) |-> StepOut(hist[i])],
                                 expect |-> [v |-> store.r1.v, vdetail |-> Detail(ct, store.r1.v.cls), a |-> store.r1.a, b |-> store.r1.b,
                                             copies |-> store.copies,
